@@ -1576,7 +1576,7 @@ class MasterAxisStatus(SimpleAxisStatus):
 
             if not self.min_pos <= desired_pos <= self.max_pos:
                 received_command_answer = 5
-            if abs(int(parameter_2)) > self.max_velocity:
+            if not abs(parameter_2) <= self.max_velocity:
                 received_command_answer = 5
         elif mode_id == 5:
             if not abs(parameter_1) <= 1:
